@@ -287,9 +287,34 @@ def check_search(m, f, schema, res_wl, res_bound):
                     break
             if n['k'] != 'BreakStmt' or owner == s.scan['i']:
                 early.append(n)
+    # ... and no neighbour is skipped on a condition that depends on earlier iterations: a `continue` whose guard reads a local
+    # that the scan itself (or the main loop) writes carries state from one neighbour / one vertex to the next
+    skipped = None
+    if not early:
+        for n in f.nodes:
+            if n['i'] in s.scanbody and n['k'] == 'ContinueStmt':
+                owner = None
+                for a in f.ancestors(n['i']):
+                    if f.nodes[a]['k'] in ('ForStmt', 'WhileStmt', 'DoStmt', 'CXXForRangeStmt'):
+                        owner = a
+                        break
+                if owner != s.scan['i']:
+                    continue
+                guards = [f.nodes[a]['cond'] for a in f.ancestors(n['i']) if a in s.scanbody and f.nodes[a]['k'] == 'IfStmt' and
+                          f.nodes[a].get('cond', -1) >= 0]
+                for a0 in guards:
+                    for st in subterms(s.T(a0)):
+                        if st[0] == 'var' and s.u.decl(st[1])['dk'] == 'Var' and st[1] != s.scan.get('loopvar'):
+                            writes = [d for d in var_defs(f, st[1]) if d[0] in s.body]
+                            if writes and not (len(var_defs(f, st[1])) == 1 and var_defs(f, st[1])[0][0] in s.scanbody):
+                                skipped = (n, st, a0)
     if early:
         fail(res_wl, 'scan-all', early[0]['i'], 'the scan of the neighbours of the current vertex is left early (%s): neighbours stored '
              'after that point are never relaxed / discovered' % early[0]['k'])
+    elif skipped:
+        fail(res_wl, 'scan-all', skipped[0]['i'], 'a neighbour is skipped when `%s` holds, and `%s` is written inside the search loop: the '
+             'decision depends on what earlier neighbours / earlier vertices left behind, so an edge of the current vertex can go '
+             'unexamined' % (f.expr_text(skipped[2])[:50], s.u.decl(skipped[1][1])['name']))
     else:
         res_wl.ok(None)
     # ---- insert-once
@@ -619,6 +644,13 @@ def check_search(m, f, schema, res_wl, res_bound):
         if not d0:
             ok = False
             why = 'dist[source] is not set to 0 before the loop'
+        else:
+            # ... on every path that returns a result: no return before the source has its distance
+            for r_ in f.nodes:
+                if r_['k'] == 'ReturnStmt' and f.cfg_pos(r_['i']) is not None and not f.node_dominates(d0[0][0], r_['i']):
+                    ok = False
+                    why = 'the function returns at %s before dist[source] is set to 0: on that path the source itself is reported ' \
+                          'unreachable' % f.nloc(r_['i'])
         if marker[0] == 'mark' and not [x for x in pre if x[1] == marker[1] and x[2] == src and strip_cast(x[3]) == ('bool', True)]:
             ok = False
             why = 'the source is not marked before the loop'
